@@ -491,9 +491,16 @@ def stop_on_fail(job, cmd, wd, log, spec_only=False):
         return None
     file_, fn, line, desc = m.group(1), m.group(2), m.group(3), m.group(4)
     prop = None
-    for name in sel:
-        if props[name][:3] == (fn, line, desc):
-            prop = name
+    for want in ((fn, line, desc), (None, line, desc), (None, None, desc)):       # the reported function can differ from the
+        for name in sel:                                                          # property's (contract clauses): line + text decide
+            f_, l_, d_ = props[name][:3]
+            if d_ == want[2] and (want[1] is None or l_ == want[1]) and (want[0] is None or f_ == want[0]):
+                prop = name
+                break
+        if prop:
+            break
+    if prop:
+        fn = props[prop][0] or fn
     return Obligation(job.name, prop or ("%s.line%s" % (fn, line)), desc, "FAILURE", fn, line, file_)
 
 
